@@ -253,6 +253,14 @@ where
         } // end of while
     } // end of hash_weigthed_hashmap
 
+    /// verification hook: the per-position register values (read only)
+    #[cfg(feature = "verif-hooks")]
+    pub fn verif_registers(&self) -> Vec<f64> {
+        (0..self.m)
+            .map(|k| self.maxvaluetracker.get_value(k))
+            .collect()
+    }
+
     /// return final signature.
     pub fn get_signature(&self) -> &Vec<D> {
         &self.signature
